@@ -105,7 +105,7 @@ func runBatch(u *vk.Unit, tag string, metas []pkgMeta) {
 	for p, e := range res.Failed {
 		var idx int
 		fmt.Sscanf(p, "s%d", &idx)
-		u.Report(vk.F("generated-code-does-not-compile", "security spec: generated code does not compile: %s", head(e, 800)), metas[idx].Meta)
+		u.Note("compile failure (C02's business, counted only): "+"security spec: generated code does not compile: %s", head(e, 800))
 	}
 	if len(res.OK) == 0 {
 		return
